@@ -261,6 +261,48 @@ def breadth_suspects():
     return out
 
 
+def depth_suspects():
+    """MODERATELY deep valid inputs (a few dozen levels, a few hundred bytes): far below any stack limit, so the only way to
+    fail is time -- a pass that visits a child twice per level (typing an element, then typing it again) needs 2^k steps"""
+    out = []
+    for k in (24, 40, 64):
+        out.append(("depth:one-element-lists x%d" % k, "const x = " + "[" * k + "7" + "]" * k + "\nprint 1\n"))
+        out.append(("depth:two-element-lists x%d" % k, "const x = " + "[0, " * k + "7" + "]" * k + "\nprint 1\n"))
+        out.append(("depth:const-one-element-lists x%d" % k, "const x = " + "[" * k + "\"s\"" + "]" * k + "\nprint 1\n"))
+        out.append(("depth:list-argument x%d" % k, "f = fn(n: int) -> int { return n }\nconst x = " + "[f(" * k + "7" + ")]" + "[0])]" * (k - 1) + "\nprint 1\n"))
+        out.append(("depth:parens x%d" % k, "v = 1\nx = " + "(" * k + "v" + ")" * k + "\nprint x\n"))
+        out.append(("depth:parens-sum x%d" % k, "v = 1\nx = " + "(1 + " * k + "v" + ")" * k + "\nprint x\n"))
+        out.append(("depth:calls x%d" % k, "f = fn(n: int) -> int { return n }\nx = " + "f(" * k + "7" + ")" * k + "\nprint x\n"))
+        out.append(("depth:or-fallbacks x%d" % k, "o: int? = nil\nx = " + "(o) or (" * k + "7" + ")" * k + "\nprint x\n"))
+        out.append(("depth:index x%d" % k, "l: [int...] = [0]\nx = " + "l[" * k + "0" + "]" * k + "\nprint x\n"))
+        out.append(("depth:typed-lists x%d" % min(k, 24), "x: " + "[" * min(k, 24) + "int" + "...]" * min(k, 24) + " = " + "[" * min(k, 24) + "7" + "]" * min(k, 24) + "\nprint 1\n"))
+        out.append(("depth:list-types x%d" % min(k, 24), "x: " + "[" * min(k, 24) + "int" + "...]" * min(k, 24) + " = []\nprint 1\n"))
+        out.append(("depth:optional-lists x%d" % k, "n: int? = 1\nconst x = " + "[" * k + "n" + "]" * k + "\nprint 1\n"))
+        out.append(("depth:blocks x%d" % k, "v = 1\n" + "if v == 1 {\n" * k + "print v\n" + "}\n" * k))
+        out.append(("depth:not x%d" % k, "b = true\nx = " + "!(" * k + "b" + ")" * k + "\nprint x\n"))
+    return out
+
+
+def constant_arith_suspects():
+    """operators applied to CONSTANT boundary operands (the compiler folds them): smallest / largest int and bigint, -1, 0, the
+    widths 31 / 32 / 64 / 127 / 128 as shift counts, bytes.  Whatever the verdict (folded, deferred to run time, rejected with a
+    diagnostic), the compiler must not die in its own arithmetic.  One line per triple, 12 per file; also as unary operands."""
+    vals = ["(-2147483647 - 1)", "-2147483647", "-1", "0", "1", "2147483647", "31", "32", "64", "127", "128",
+            "(-B170141183460469231731687303715884105727 - B1)", "-B1", "B0", "B1", "B170141183460469231731687303715884105727",
+            "0b0", "0b11111111", "0.0", "-1.5"]
+    ops = ["+", "-", "*", "/", "%", "<<", ">>", "&", "|", "^", "xor", "<", "==", "&&"]
+    out = []
+    for op in ops:
+        for a in vals:
+            out.append(("constant-arith:%s %s *" % (a, op), "".join("print %s %s %s\n" % (a, op, b) for b in vals)))
+            for b in ("(-2147483647 - 1)", "-1", "0", "(-B170141183460469231731687303715884105727 - B1)", "-B1", "128"):
+                # alone: a diagnostic for one line must not hide the folding of this one
+                out.append(("constant-arith:%s %s %s" % (a, op, b), "x = %s %s %s\nprint x\n" % (a, op, b)))
+    for a in vals:
+        out.append(("constant-arith:unary %s" % a, "print -%s\nprint -(-%s)\nprint !(%s == 0)\nx = -%s\nprint x\n" % (a, a, a, a)))
+    return out
+
+
 def backtracking_suspects():
     """NEARLY VALID deep code: one operand is missing in the innermost of k nested function literals, the ordinary shape of
     callbacks and factories while they are being typed.  The input is a few hundred bytes; the diagnostic must come as promptly
@@ -289,7 +331,7 @@ def build_inputs(ctx, gr, n_gen, n_mut, n_mutgen, n_grid=0):
     """-> list of cases {name, stream, files, entry}"""
     rng = ctx.rng
     cases = []
-    for name, text in suspects() + breadth_suspects() + backtracking_suspects() + placement_suspects():
+    for name, text in suspects() + breadth_suspects() + backtracking_suspects() + depth_suspects() + constant_arith_suspects() + placement_suspects():
         cases.append({"name": name, "stream": "suspect", "files": {"main.ms": text}, "entry": "main.ms"})
     corpus = programs.corpus_from_tests() + programs.corpus_from_examples()
     for p in corpus:
